@@ -11,7 +11,7 @@
                    within_ρ    : q ∈ cell p → angle q (centre p) ≤ ρ
     `DiscQuery`  inclusive `query_disc` at that resolution, with a slack `slack` (healpy's inclusive
                  mode works on a grid `fact = 4` times finer and tests sub-pixel centres against
-                 r + ρ_fine, so slack = ρ_fine = max pixel radius at 4·nside):
+                 r + ρ_fine, so slack = ρ_fine = max pixel radius at fact·nside; `Healpix.disc` is indexed by `fact`):
                    complete : a pixel containing a point within r of v is returned
                    sound    : a returned pixel's centre is within r + ρ + slack of v
     `PolyQuery`  inclusive `query_polygon`:
@@ -84,8 +84,9 @@ structure PolyQuery (G : Grid) where
 
 structure Healpix where
   grid : ℕ → Grid
-  disc : ∀ d, DiscQuery (grid d)
-  poly : ∀ d, PolyQuery (grid d)
+  /-- indexed by healpy's oversampling factor `fact` (each has its own `slack`) and the depth -/
+  disc : ∀ (fact d : ℕ), DiscQuery (grid d)
+  poly : ∀ (fact d : ℕ), PolyQuery (grid d)
   nest : ∀ (d m : ℕ) (q : E3), d ≤ m → ‖q‖ = 1 →
     (grid m).ang2pix q / 4 ^ (m - d) = (grid d).ang2pix q
 
@@ -268,7 +269,7 @@ noncomputable def trivialGrid : Grid where
 
 noncomputable def trivialHealpix : Healpix where
   grid _ := trivialGrid
-  disc _ :=
+  disc _ _ :=
     { query := fun _ _ => {0}
       slack := 0
       complete := by
@@ -281,7 +282,7 @@ noncomputable def trivialHealpix : Healpix where
         have := angle_le_pi (trivialGrid.centre p) v
         simp only [trivialGrid] at *
         linarith }
-  poly _ :=
+  poly _ _ :=
     { query := fun _ => none
       slack := 0
       complete := by intro vs D p q h; simp at h
